@@ -16,6 +16,8 @@ type PtrV struct {
 	Off  *Term   // byte offset (byte objects)
 	Safe bool    // derived from a bounds-checked index and not moved since
 	Wrap int     // number of virtual single-field struct wrappers (pointer reinterpretation)
+	Sym    *Term // symbolic element index: Path[SymPos] is a placeholder
+	SymPos int
 }
 
 type SliceV struct {
